@@ -1,10 +1,143 @@
-import Martian.Util
-/-! STUB — property C11 is not built yet. -/
+import Martian.Model.Grpc
+/-!
+Driver for C11. The compression library is abstract in the model; the harness declares, per
+case, the finite part of it that the case needs (`dec`/`cmp` table lines computed with the real
+gzip/flate/snappy). A lookup that the tables do not answer makes the op `out-of-model`
+(detected by running the op under two codecs that differ exactly on unanswered lookups).
+-/
 namespace Martian.Drv.C11
-open Martian
+open Martian Martian.Grpc
 
-abbrev St := Unit
-def init : St := ()
-def step (s : St) (_toks : List String) : St × String := (s, "bad-op")
+structure St where
+  stream : Stream := {}
+  deadC : Bool := false
+  deadS : Bool := false
+  decT : List (Enc × Bytes × Option Bytes) := []
+  cmpT : List (Enc × Bytes × Bytes) := []
+
+def init : St := {}
+
+def lookupDec (t : List (Enc × Bytes × Option Bytes)) (e : Enc) (x : Bytes) : Option (Option Bytes) :=
+  match t.find? (fun r => r.1 = e && r.2.1 = x) with
+  | some r => some r.2.2
+  | none => none
+
+def lookupCmp (t : List (Enc × Bytes × Bytes)) (e : Enc) (x : Bytes) : Option Bytes :=
+  match t.find? (fun r => r.1 = e && r.2.1 = x) with
+  | some r => some r.2.2
+  | none => none
+
+/-- the declared part of the library; `alt` chooses what an undeclared lookup answers -/
+def codec (s : St) (alt : Bool) : Codec where
+  comp e x := match lookupCmp s.cmpT e x with
+    | some y => y
+    | none => if alt then [0xBB] else []
+  decomp e x := match lookupDec s.decT e x with
+    | some y => y
+    | none => if alt then some [0xAA] else none
+
+def fnv (b : Bytes) : UInt64 :=
+  b.foldl (fun h x => (h ^^^ x.toUInt64) * 1099511628211) 14695981039346656037
+
+def showBytes (b : Bytes) : String :=
+  if b.length ≤ 48 then hex b else s!"#{b.length}:{(fnv b).toNat}"
+
+def showHdrs (hs : List Header) : String :=
+  if hs.isEmpty then "-" else ",".intercalate (hs.map fun h => hex h.1 ++ "=" ++ hex h.2)
+
+def b01 (b : Bool) : String := if b then "1" else "0"
+
+def showEv : Ev → String
+  | .procHeader hs es => s!"ph:{b01 es}:{showHdrs hs}"
+  | .procMessage d es => s!"pm:{b01 es}:{showBytes d}"
+  | .sinkHeader hs es => s!"sh:{b01 es}:{showHdrs hs}"
+  | .sinkData d es => s!"sd:{b01 es}:{showBytes d}"
+  | .sinkPriority => "sp"
+  | .sinkRst c => s!"sr:{c}"
+  | .sinkPush id hs => s!"su:{id}:{showHdrs hs}"
+  | .error w => s!"err:{w}"
+
+def showEvs (evs : List Ev) : String :=
+  if evs.isEmpty then "-" else " ".intercalate (evs.map showEv)
+
+def parseDir : String → Option Dir
+  | "c" => some .c2s
+  | "s" => some .s2c
+  | _ => none
+
+def parseBool : String → Option Bool
+  | "0" => some false
+  | "1" => some true
+  | _ => none
+
+def parseEnc : String → Option Enc
+  | "identity" => some .identity
+  | "gzip" => some .gzip
+  | "deflate" => some .deflate
+  | "snappy" => some .snappy
+  | _ => none
+
+def parseHdr (s : String) : Option Header :=
+  match s.splitOn "=" with
+  | [n, v] => match unhex n, unhex v with
+    | some a, some b => some (a, b)
+    | _, _ => none
+  | _ => none
+
+def parseHdrs (s : String) : Option (List Header) :=
+  if s = "-" then some [] else (s.splitOn ",").mapM parseHdr
+
+def St.dead (s : St) : Dir → Bool
+  | .c2s => s.deadC
+  | .s2c => s.deadS
+
+def St.kill (s : St) : Dir → St
+  | .c2s => { s with deadC := true }
+  | .s2c => { s with deadS := true }
+
+def dataOp (s : St) (d : Dir) (b : Bytes) (es : Bool) : St × String :=
+  if s.dead d then (s, "out-of-model") else
+  let r0 := Stream.data (codec s false) s.stream d b es
+  let r1 := Stream.data (codec s true) s.stream d b es
+  if r0 != r1 then (s.kill d, "out-of-model")
+  else match r0.1 with
+    | some st => ({ s with stream := st }, showEvs r0.2)
+    | none => (s.kill d, showEvs r0.2)
+
+def step (s : St) (toks : List String) : St × String :=
+  match toks with
+  | ["dec", e, w, p] =>
+    match parseEnc e, unhex w, (if p = "!" then some none else (unhex p).map some) with
+    | some e, some w, some p => ({ s with decT := (e, w, p) :: s.decT }, "ok")
+    | _, _, _ => (s, "bad-op")
+  | ["cmp", e, p, w] =>
+    match parseEnc e, unhex p, unhex w with
+    | some e, some p, some w => ({ s with cmpT := (e, p, w) :: s.cmpT }, "ok")
+    | _, _, _ => (s, "bad-op")
+  | ["hdr", d, es, hs] =>
+    match parseDir d, parseBool es, parseHdrs hs with
+    | some d, some es, some hs =>
+      if s.dead d then (s, "out-of-model") else
+      let (st, evs) := s.stream.header d hs es
+      let s' := { s with stream := st }
+      (if evs.any (fun e => match e with | .error _ => true | _ => false) then s'.kill d else s', showEvs evs)
+    | _, _, _ => (s, "bad-op")
+  | ["data", d, es, b] =>
+    match parseDir d, parseBool es, unhex b with
+    | some d, some es, some b => dataOp s d b es
+    | _, _, _ => (s, "bad-op")
+  | ["prio", d] =>
+    match parseDir d with
+    | some _ => (s, showEvs [.sinkPriority])
+    | none => (s, "bad-op")
+  | ["rst", d, c] =>
+    match parseDir d, c.toNat? with
+    | some _, some c => (s, showEvs [.sinkRst c])
+    | _, _ => (s, "bad-op")
+  | ["push", d, id, hs] =>
+    match parseDir d, id.toNat?, parseHdrs hs with
+    | some _, some id, some hs => (s, showEvs [.sinkPush id hs])
+    | _, _, _ => (s, "bad-op")
+  | _ => (s, "bad-op")
 
 end Martian.Drv.C11
